@@ -154,6 +154,42 @@ func init() {
 					hs[i].Shutdown()
 				}
 				time.Sleep(30 * time.Millisecond)
+			case "trunc", "truncstop":
+				// the followed file is truncated: within ~3 s the reader notices, closes the file, pauses 2 s and
+				// re-opens it (keeping its slot).  "truncstop" ends the session during that pause.
+				isOpen := func() bool {
+					_, o := observe()
+					for _, x := range o {
+						if x == i {
+							return true
+						}
+					}
+					return false
+				}
+				if isOpen() {
+					os.WriteFile(paths[i], []byte("a considerably longer first generation of the file\n"), 0o644)
+					time.Sleep(300 * time.Millisecond)
+					os.Truncate(paths[i], 0)
+					deadline := time.Now().Add(5 * time.Second)
+					for time.Now().Before(deadline) && isOpen() {
+						time.Sleep(10 * time.Millisecond)
+					}
+					if ev[0] == "truncstop" {
+						time.Sleep(300 * time.Millisecond)
+						if hs[i] != nil {
+							hs[i].Shutdown()
+						}
+						time.Sleep(2500 * time.Millisecond) // beyond the end of the pause
+					} else {
+						deadline = time.Now().Add(5 * time.Second)
+						for time.Now().Before(deadline) && !isOpen() {
+							time.Sleep(10 * time.Millisecond)
+						}
+					}
+				} else if ev[0] == "truncstop" && hs[i] != nil {
+					hs[i].Shutdown()
+					time.Sleep(30 * time.Millisecond)
+				}
 			}
 			t, o := settle()
 			trace = append(trace, obs{t, o})
